@@ -142,7 +142,7 @@ static int32_t read_verify(struct jls_raw_s * self) {
     if (!rc) {
         fend_get(self);
     }
-    if (0 == file_hdr.length) {
+    if (!rc && (0 == file_hdr.length)) {
         JLS_LOGW("file header length 0, not closed gracefully");
         rc = JLS_ERROR_TRUNCATED;
     }
